@@ -37,23 +37,29 @@ class Builder:
         op = {"k": "sd", "t": self.t, "p": p, "ch": ch, "e": entries}
         op.update(kw)
         self.ops.append(op)
-        for e in entries:
+        for e in list(entries) + list(kw.get("e2", [])):
             if e[0] in ("offer", "sub") and e[5] not in (0, INF_TTL):
                 self.deadlines.append(self.t + e[5])
         self._adv()
 
-    def offer(self, p, key, ttl, ch="m", extra=None, opts=None):
+    def offer(self, p, key, ttl, ch="m", extra=None, opts=None, second=None):
         e = ["offer", key[0], key[1], key[2], key[3], ttl]
         if opts:
             e.append(opts)
-        self.sd(p, ch, [e] + (extra or []))
+        if second:
+            self.sd(p, ch, [e] + (extra or []), e2=second)
+        else:
+            self.sd(p, ch, [e] + (extra or []))
 
     def find(self, p, ch="m", key=(0x7777, 0xFFFF, 0xFF, 0xFFFFFFFF)):
         self.sd(p, ch, [["find", key[0], key[1], key[2], key[3], 3]])
 
-    def sub(self, p, ids, eg, ttl, counter=0, ch="u", eps=None, extra=None):
+    def sub(self, p, ids, eg, ttl, counter=0, ch="u", eps=None, extra=None, second=None):
         e = ["sub", ids[0], ids[1], ids[2], eg, ttl, counter, eps if eps is not None else [ep(p)]]
-        self.sd(p, ch, [e] + (extra or []))
+        if second:
+            self.sd(p, ch, [e] + (extra or []), e2=second)
+        else:
+            self.sd(p, ch, [e] + (extra or []))
 
     def preboot(self, p):
         self._now()
